@@ -284,6 +284,18 @@ func c08Directed(u *universe) []c08Harness {
 			{{Op: op(Op{K: "Cancel", H: 0})}, {Op: op(Op{K: "Resume", H: 0, Off: "zero", W: 2})}, {Op: op(Op{K: "Write", H: 0, Piece: "ZZ", W: 2})}},
 		}},
 	)
+	hs = append(hs,
+		// a commit retried concurrently (e.g. a re-sent final PUT): whoever is told "committed" can read the blob
+		c08Harness{Name: "H9-two-committers-and-a-reader", Prologue: c08Seed, Threads: [][]cOp{
+			{{Op: op(Op{K: "Commit", H: 0, Off: "explicit", Piece: "ab"})}},
+			{{Op: op(Op{K: "Commit", H: 0, Off: "explicit", Piece: "ab"})}, {Q: qp(Query{K: "GetBlob", Repo: "r", Dig: digAB, What: "ab"})}},
+		}},
+		c08Harness{Name: "H10-two-committers-vs-cancel", Prologue: c08Seed, Threads: [][]cOp{
+			{{Op: op(Op{K: "Commit", H: 0, Off: "explicit", Piece: "ab"})}},
+			{{Op: op(Op{K: "Commit", H: 0, Off: "explicit", Piece: "ab"})}, {Q: qp(Query{K: "ResolveBlob", Repo: "r", Dig: digAB, What: "ab"})}},
+			{{Op: op(Op{K: "Cancel", H: 0})}},
+		}},
+	)
 	// the first three again through ociclient -> ociserver (requests are served concurrently over one registry)
 	for _, h := range []c08Harness{hs[0], hs[3], hs[6]} {
 		h.Name += "/http"
